@@ -214,8 +214,11 @@ class Renderer:
                 self.type(m.ret); m.ret_first = m.ret.first
         m.name_tok = self.t(m.name)
         self.t("(", True)
-        for i, (pt, pn) in enumerate(m.params):
+        for i, prm in enumerate(m.params):
+            pt, pn = prm[0], prm[1]
             if i: self.t(",", True)
+            for a in (prm[2] if len(prm) > 2 else []):
+                self.annotation(a)
             self.type(pt); self.t(pn)
         m.rparen = self.t(")", True)
         if m.body is None:
@@ -513,12 +516,12 @@ def member_fact(unit, m):
     first_annot = [annot_fact(first)] if isinstance(first, Annotation) and not m.type_params else []
     annots = [x.name for x in m.mods if isinstance(x, Annotation)]
     mods = [x for x in m.mods if not isinstance(x, Annotation)]
-    ev = [["formal", pt.text(), pn] for pt, pn in m.params]
+    ev = [["formal", prm[0].text(), prm[1]] for prm in m.params]
     if m.body is not None:
         ev += body_events(unit, m.body)
     it = unit.toks[m.name_tok]
     return [kind, m.name, "" if m.kind == "ctor" else (m.ret.text() if m.ret is not None else "void"), "", [],
-            [[pt.text(), pn] for pt, pn in m.params], "1" if m.params else "0",
+            [[prm[0].text(), prm[1]] for prm in m.params], "1" if m.params else "0",
             first_annot, "1" if (m.mods and not m.type_params) else "0", annots, mods,
             [str(it.line), str(it.col), "0", "0"], P(unit, m.first, m.last), ev]
 
@@ -719,7 +722,7 @@ def expected_calls(unit, project):
             for n in m.names: fields[n] = m.type
             continue
         scope = {}
-        for pt, pn in m.params: scope[pn] = ("param", pt)
+        for prm in m.params: scope[prm[1]] = ("param", prm[0])
         calls = []
         def expr(e):
             k = e.k
